@@ -46,7 +46,7 @@ def run(ctx):
         F = ctx.facts(b)
         nl = 0
         # the filter predicate on nonce_begin: true for 4 (empty password: the nonce starts right after the length prefix), false for 3
-        preds = [cb for cb in db.find_bodies(r'^crypto::user_identity::legacy_password_decrypt::\{closure#\d+\}$') if cb.locals[0] == 'bool']
+        preds = [cb for cb in db.find_bodies(r'^crypto::user_identity::legacy_password_decrypt(::\{closure#\d+\})*$') if cb.locals[0] == 'bool']
         if len(preds) != 1:
             r.lost(rule, 'nonce_begin-guard', 'expected one bool closure (the filter on nonce_begin), found %d' % len(preds))
         else:
